@@ -14,8 +14,9 @@ from .base import BaseWorld, lib, must_raise
 SPACES = ['Real', 'Fourier', 'NonSpatial']
 BIN = {'add': (operator.add, operator.iadd), 'sub': (operator.sub, operator.isub),
        'mul': (operator.mul, operator.imul), 'div': (operator.truediv, operator.itruediv)}
-TYPESETS = {1: [['A'], ['poly']], 2: [['A', 'B'], ['p', 'solvent']], 3: [['A', 'B', 'C'], ['x', 'y', 'z']],
-            4: [['A', 'B', 'C', 'D']], 5: [['A', 'B', 'C', 'D', 'E'], ['a', 'b', 'c', 'd', 'e']]}
+TYPESETS = {1: [['A'], ['poly'], [7]], 2: [['A', 'B'], ['p', 'solvent'], [10, 20]], 3: [['A', 'B', 'C'], ['x', 'y', 'z'], [10, 20, 30], [1, 2, 3]],
+            4: [['A', 'B', 'C', 'D'], [4, 3, 2, 1]], 5: [['A', 'B', 'C', 'D', 'E'], ['a', 'b', 'c', 'd', 'e']]}
+BADKEYS = ['__nope__', 0, 1, 'last_index', 99, -1, 'np0', 'trailing_space', 'other_case', 2.5]
 
 
 def gen_data(seed_parts, L, r):
@@ -97,7 +98,7 @@ class World(BaseWorld):
             elif k in ('setitem', 'getitem'):
                 o.update(a=ro.randrange(r), b=ro.randrange(r), scalar=ro.random() < 0.2)
             elif k == 'badtype':
-                o.update(which=ro.choice(['get', 'set']), pos=ro.randrange(2), a=ro.randrange(r))
+                o.update(which=ro.choice(['get', 'set']), pos=ro.randrange(2), a=ro.randrange(r), bad=ro.choice(BADKEYS))
             elif k == 'new_identity':
                 o.update(space=ro.choice(SPACES))
             ops.append(o)
@@ -362,7 +363,22 @@ class World(BaseWorld):
                 ctx.probe('getitem')
             elif k == 'badtype':
                 key = [types[op['a']], types[op['a']]]
-                key[op['pos']] = '__nope__'
+                bad = op.get('bad', '__nope__')
+                # names that are *not* types of this array, including ones that look like positions (0, 1, rank-1, numpy ints)
+                if bad == 'last_index':
+                    bad = r - 1
+                elif bad == 'np0':
+                    bad = np.int64(0)
+                elif bad == 'trailing_space':
+                    bad = str(types[0]) + ' '
+                elif bad == 'other_case':
+                    bad = str(types[0]).swapcase() if str(types[0]).swapcase() != str(types[0]) else '__nope__'
+                if bad in types:
+                    ctx.log(skipped='is a type')
+                    continue
+                if not isinstance(bad, str):
+                    ctx.probe('unknown_type_looks_like_index')
+                key[op['pos']] = bad
                 if op['which'] == 'get':
                     must_raise('getitem_unknown', (ValueError,), A['ma'].__getitem__, tuple(key))
                 else:
@@ -396,7 +412,7 @@ class World(BaseWorld):
     def expected_probes(self, tier):
         ex = ['broadcast_len1', 'refused_inplace', 'refused_outofplace', 'refused_dot', 'get_copy', 'two_inplace_same_array',
               'unknown_type_get', 'unknown_type_set', 'setitem_offdiag', 'invert', 'invert_i', 'length1', 'identity_array_in_pool',
-              'identity_created_after_inplace_ops', 'nd_1d_operand_length_equals_rank', 'nd_r', 'nd_r1', 'nd_1r', 'nd_0d', 'nd_list_r',
+              'identity_created_after_inplace_ops', 'nd_1d_operand_length_equals_rank', 'unknown_type_looks_like_index', 'nd_r', 'nd_r1', 'nd_1r', 'nd_0d', 'nd_list_r',
               'nd_full', 'nd_rr', 'nd_L11']
         if tier == 'thorough':
             for fn in sorted(BIN):
